@@ -1864,6 +1864,69 @@ var ruleLimitSlice = &core.Rule{ID: "R04.1", Min: 5,
 				f = g
 			}
 		}
+		// the limit that is snapshot is the one the caller set: every exported func(uint32) of the root package stores its
+		// parameter into the limit variable (sync/atomic function or method), on the way to every return
+		for _, g := range cm.fs {
+			if !exportedAPI(g) || g.Signature.Recv() != nil || len(g.Params) != 1 || g.Signature.Results().Len() != 0 || g.Blocks == nil {
+				continue
+			}
+			if bt, ok := g.Params[0].Type().Underlying().(*types.Basic); !ok || bt.Kind() != types.Uint32 {
+				continue
+			}
+			stored := false
+			for _, ci := range core.Calls(g) {
+				cc := ci.Common()
+				h := cc.StaticCallee()
+				if h == nil || h.Pkg == nil || h.Pkg.Pkg.Path() != "sync/atomic" || !strings.HasPrefix(h.Name(), "Store") || len(cc.Args) < 2 {
+					continue
+				}
+				if cc.Args[len(cc.Args)-1] != ssa.Value(g.Params[0]) {
+					continue
+				}
+				isLimit := false
+				for _, lv := range cm.limit {
+					if cc.Args[0] == ssa.Value(lv) {
+						isLimit = true
+					}
+					if ld, ok := cc.Args[0].(*ssa.UnOp); ok && ld.X == ssa.Value(lv) {
+						isLimit = true
+					}
+				}
+				all := true
+				for _, r := range core.Returns(g) {
+					if !ci.Block().Dominates(r.Block()) {
+						all = false
+					}
+				}
+				if isLimit && all {
+					stored = true
+				}
+			}
+			if !stored {
+				// handed to a helper or method of the module (a named limit type): not followed here
+				handed := false
+				for _, ci := range core.Calls(g) {
+					if h := ci.Common().StaticCallee(); h != nil && core.InMod(h) {
+						for _, a := range ci.Common().Args {
+							if a == ssa.Value(g.Params[0]) {
+								handed = true
+							}
+							if cv, ok := a.(*ssa.Convert); ok && cv.X == ssa.Value(g.Params[0]) {
+								handed = true
+							}
+							if cv, ok := a.(*ssa.ChangeType); ok && cv.X == ssa.Value(g.Params[0]) {
+								handed = true
+							}
+						}
+					}
+				}
+				if handed {
+					s.Und(g.Name()+": the limit given by the caller is stored", c.Pos(g.Pos()), "the parameter is handed to a function of the module: whether it ends up in the limit variable is not followed")
+					continue
+				}
+			}
+			s.Check(stored, g.Name()+": the limit given by the caller is stored", c.Pos(g.Pos()), "atomic store of the parameter into the limit variable", g.Name()+" does not store its parameter into the limit variable on every path: the limit the caller sets is not the one detection works with")
+		}
 		if f == nil {
 			core.Bail("bytes entry point not found")
 		}
